@@ -10,8 +10,11 @@
    cascades, so exploration is pruned behind the first state that neither agrees nor is compatible
    (history flag `broken`; such states are terminal), and the finding is named
    by its BREAKING EDGE `edge` = <<context, url, slot, kind of the last compatible product state,
-   fragment>>.  `root` names the edge at which STRICT agreement was lost on the way (the root cause
-   of the desynchronisation that later becomes incompatible).
+   fragment>>.  `root` names the edge at which STRICT agreement was FIRST lost on the way (the root
+   cause of the desynchronisation that later becomes incompatible), `div` counts the fragments
+   since then.  The region where the two machines are in step (div = 0) is explored to its
+   fix-point; behind a root cause exploration continues for MaxDiv fragments (the cascade is not
+   followed further: every product state behind it is a consequence of the same root cause).
    TLC is run without an INVARIANT so that it does not stop at the first breaking edge: all of them
    are wanted.  `doc` is the fragment sequence that reached the state first (breadth-first: a
    shortest one); the VIEW excludes it.  With -dump, every distinct product state is written with
@@ -21,17 +24,18 @@
 EXTENDS AELexer, AEHTMLTok, AETables, TLC, Json
 
 CONSTANTS Use,        \* set of fragment indices
-          MaxDoc      \* safety bound on the document length (the fix-point must be reached below it)
+          MaxDoc,     \* safety bound on the document length (the fix-point must be reached below it)
+          MaxDiv      \* how many fragments exploration continues after the FIRST loss of strict agreement (0: no bound)
 
-VARIABLES lex, ref, doc, broken, edge, root
-vars == <<lex, ref, doc, broken, edge, root>>
+VARIABLES lex, ref, doc, broken, edge, root, div
+vars == <<lex, ref, doc, broken, edge, root, div>>
 
 Class(l, h) == <<LCtxAtHole(l), LURLAtHole(l), Slot(h), SlotKind(h)>>
 CompatibleAt(l, h) == Compatible(LCtxAtHole(l), LURLAtHole(l), Slot(h), SlotKind(h))
 AgreeAt(l, h) == Agree(LCtxAtHole(l), LURLAtHole(l), Slot(h), SlotKind(h))
 Sync == ~broken
 
-Init == lex = L0 /\ ref = HNorm(H0) /\ doc = <<>> /\ broken = FALSE /\ edge = <<>> /\ root = <<>>
+Init == lex = L0 /\ ref = HNorm(H0) /\ doc = <<>> /\ broken = FALSE /\ edge = <<>> /\ root = <<>> /\ div = 0
 
 Step(f) ==
   LET l2 == LRun(lex, Frags[f])
@@ -42,12 +46,12 @@ Step(f) ==
      /\ doc' = Append(doc, f)
      /\ broken' = (~ok /\ ~AgreeAt(l2, h2))
      /\ edge' = IF ok \/ AgreeAt(l2, h2) THEN <<>> ELSE Class(lex, ref) \o <<f>>
-     /\ root' = IF AgreeAt(l2, h2) THEN <<>>
-                ELSE IF root # <<>> THEN root ELSE Class(lex, ref) \o <<f>>
+     /\ root' = IF root # <<>> THEN root ELSE IF AgreeAt(l2, h2) THEN <<>> ELSE Class(lex, ref) \o <<f>>
+     /\ div' = IF div > 0 THEN (IF MaxDiv = 0 THEN 1 ELSE div + 1) ELSE IF AgreeAt(l2, h2) THEN 0 ELSE 1
 
-Next == ~broken /\ Len(doc) < MaxDoc /\ Slot(ref) # "undefined" /\ \E f \in Use : Step(f)
+Next == ~broken /\ (MaxDiv = 0 \/ div < MaxDiv) /\ Len(doc) < MaxDoc /\ Slot(ref) # "undefined" /\ \E f \in Use : Step(f)
 
-View == <<lex, ref, broken, edge>>
+View == <<lex, ref, broken, edge, div>>
 \* the fix-point was reached strictly below the bound (checked as an invariant: no state sits at the bound)
 BelowBound == Len(doc) < MaxDoc
 
